@@ -47,7 +47,8 @@ def _create_override_tuple(key, has_value = True):
     key, value = key.split("=", 1)
   if not ":" in key:
     raise ConfigurationException("malformed option '{}' should start with SECTION_NAME:KEY".format(option))
-  section,key = key.split(":", 1)
+  # Section names can contain ':' ([Table-Form:NAME]), option keys cannot.
+  section,key = key.rsplit(":", 1)
   retval = ConfigParserOverrideTuple(section = section, key = key, value = value)
   return retval
 
